@@ -265,7 +265,7 @@ def _build_and_run(tier, seed, profiles):
     dump_dir = os.path.join(WORK_ROOT, "dumps")
     shutil.rmtree(dump_dir, ignore_errors=True)
     os.makedirs(dump_dir)
-    members = ["support", "runner"] + ["c%d" % i for i in range(NCHUNK + 1)]
+    members = ["support", "runner", "probes", "nostd"] + ["c%d" % i for i in range(NCHUNK + 1)]
     setup_workspace(ws, members)
     write(os.path.join(ws, "support", "Cargo.toml"),
           "[package]\nname = \"support\"\nversion = \"0.1.0\"\nedition = \"2021\"\n\n[dependencies]\narbitrary-int = { version = \"1.3.0\", default-features = false }\n")
@@ -280,6 +280,15 @@ def _build_and_run(tier, seed, profiles):
           "".join("c%d = { path = \"../c%d\" }\n" % (i, i) for i in range(NCHUNK + 1)))
     write(os.path.join(ws, "runner", "src", "main.rs"),
           RUNNER_MAIN % "\n".join("    c%d::gen::run_all(&mut o);" % i for i in range(NCHUNK + 1)))
+
+    write(os.path.join(ws, "probes", "Cargo.toml"),
+          "[package]\nname = \"probes\"\nversion = \"0.1.0\"\nedition = \"2021\"\n\n[dependencies]\narbitrary-int = { version = \"1.3.0\", default-features = false }\nsupport = { path = \"../support\" }\n" +
+          "".join("c%d = { path = \"../c%d\" }\n" % (i, i) for i in range(NCHUNK + 1)))
+    if not os.path.exists(os.path.join(ws, "probes", "src", "lib.rs")):
+        write(os.path.join(ws, "probes", "src", "lib.rs"), "\n")
+    write(os.path.join(ws, "nostd", "Cargo.toml"), crate_toml("nostd"))
+    if not os.path.exists(os.path.join(ws, "nostd", "src", "lib.rs")):
+        write(os.path.join(ws, "nostd", "src", "lib.rs"), "#![no_std]\n")
 
     surfaces = {}
 
@@ -398,12 +407,61 @@ def _build_and_run(tier, seed, profiles):
         ops[prof] = out_path
     timing["runner_s"] = time.time() - t0
 
+    # ---- compile-time probes: access surface (C17), builder type-state (C14) ----------------------------------------
+    t0 = time.time()
+    probes_res = {"list": [], "fail": None}
+    if runner_fail is None:
+        plines, probes = render.render_probes([table[n] for n in sorted(run_alive, key=lambda x: [d["name"] for d in decls].index(x))], table, surfaces)
+        head = plines[:2] + sum([["use c%d::decls::*;" % i, "use c%d::gen::*;" % i] for i in range(NCHUNK + 1)], [])
+        shift = len(head) - 2
+        write(os.path.join(ws, "probes", "src", "lib.rs"), "\n".join(head + plines[2:]) + "\n")
+        p = cargo(ws, ["check", "-p", "probes", "--message-format=json", "--offline"])
+        msgs = [m for m in parse_messages(p.stdout) if m.get("level") == "error"]
+        by_line = {}
+        stray = []
+        for m in msgs:
+            hit = False
+            for sp in m.get("spans", []):
+                for (fn, a, b) in span_locs(sp):
+                    if fn.endswith("probes/src/lib.rs"):
+                        by_line.setdefault(a, []).append(m.get("message", "")[:200])
+                        hit = True
+            if not hit and not m.get("message", "").startswith("aborting"):
+                stray.append(m.get("message", "")[:300])
+        for pr in probes:
+            lo = pr["lines"][0] + shift
+            errs = by_line.get(lo, [])
+            probes_res["list"].append({"decl": pr["decl"], "what": pr["what"], "expect": pr["expect"], "got": "err" if errs else "ok", "errors": errs[:2]})
+        if stray:
+            probes_res["fail"] = stray[:3]
+        if p.returncode != 0 and not msgs:
+            probes_res["fail"] = [p.stderr[-800:]]
+    timing["probes_s"] = time.time() - t0
+
+    # ---- #![no_std] #![deny(missing_docs)] crate with the documented declarations (C18) --------------------------------
+    t0 = time.time()
+    doc_decls = [d for d in decls if "docs" in d["classes"] and d["name"] in accepted_set]
+    nostd_res = {"decls": len(doc_decls), "rejected": {}, "fail": None}
+    if doc_decls:
+        def nostd_sources(alive_names):
+            ds = [d for d in doc_decls if d["name"] in alive_names]
+            text, ranges = render.render_decls(ds, ["#![no_std]", "#![deny(missing_docs)]", "//! documented declarations compiled without std",
+                                                    "#![allow(dead_code, unused_imports)]", "use bitbybit::{bitenum, bitfield};", "use arbitrary_int::*;"])
+            write(os.path.join(ws, "nostd", "src", "lib.rs"), text)
+            return {"nostd/src/lib.rs": ranges}
+        alive_doc, rej_doc, unattr_doc, ok_doc = cargo_iterate(ws, ["check", "-p", "nostd"], nostd_sources, set(d["name"] for d in doc_decls), "nostd")
+        nostd_res["rejected"] = rej_doc
+        if not ok_doc:
+            nostd_res["fail"] = unattr_doc[:3] or ["cargo check -p nostd failed"]
+    timing["nostd_s"] = time.time() - t0
+
     # ---- phase D: driver on the operations -----------------------------------------------------------
     t0 = time.time()
     mismatches = {}
     stats = {}
     flags = {}
     op_counts = {}
+    const_ok = 0
     first_text = None
     first_prof = None
     for prof, path in ops.items():
@@ -419,7 +477,8 @@ def _build_and_run(tier, seed, profiles):
         if first_text is None:
             first_text, first_prof = text, prof
         op_lines = text.splitlines()
-        flags[prof] = [l for l in op_lines if not l.startswith("op ")][:500]
+        flags[prof] = [l for l in op_lines if not l.startswith("op ") and not l.startswith("CONST-OK")][:500]
+        const_ok = sum(1 for l in op_lines if l.startswith("CONST-OK"))
         lines = proto + ["profile chk=%d" % (1 if prof == "dev" else 0)] + [l for l in op_lines if l.startswith("op ")] + ["stats"]
         out = run_driver(lines)
         mismatches[prof] = [l for l in out if l.startswith("mismatch ") or l.startswith("bad-op")][:5000]
@@ -442,6 +501,9 @@ def _build_and_run(tier, seed, profiles):
         "unattributed": unattr,
         "surfaces": {k: [list(x) for x in v] for k, v in surfaces.items()},
         "token_scan": token_scan,
+        "probes": probes_res,
+        "const_ok": const_ok,
+        "nostd": nostd_res,
         "model": model,
         "runner_dropped": run_dropped,
         "runner_unattributed": run_unattr,
